@@ -29,6 +29,44 @@ CHECKS = {
     note='Trusts the tables of the reference tree as "published" (digest pins in checks/c11_pins.json; re-pin on an intentional table update). '
          'Sportshall increments in unparseable units only get a lower-bound oracle.',
     ref='DESIGN.md §4 C11'),
+ 'C04': dict(
+    technique='bounded-exhaustive enumeration over a class-representative alphabet + grammar-directed generation from the regex syntax trees; membership oracle',
+    text='All strings up to length 4 (quick) / 5 (thorough) over one representative per cell of the code-point partition induced by the '
+         'patterns\' own character classes, plus strings generated from the syntax tree of every family and composite pattern (own generator '
+         'and Hypothesis from_regex), their near misses and trailing-newline variants; composite <=> union of parts, kinds disjoint, '
+         'first-match classification order-independent.',
+    note='Language equality is explored to a length bound and by sampling, not proved for unbounded length (a symbolic decision procedure '
+         'is outside this technique family). The alphabet partition is recomputed from the patterns on every run.',
+    ref='DESIGN.md §4 C04'),
+ 'C07': dict(
+    technique='grammar-directed generation from the regex syntax tree + structural spelling variants; algebraic-law oracle (closure, idempotence, confluence)',
+    text='Codes generated from PAT_EVENT_CODE\'s syntax tree (every alternative covered), their case/space/suffix/trailing-zero variants, near '
+         'misses and arbitrary text; the normal form must be accepted, whitespace-free, idempotent, in the same families/kind, and identical '
+         'for all variants; non-codes must raise ValueError.',
+    note='Samples the (infinite) language; digit runs bounded at 12. "Same families" is checked as no family lost + same measurement kind.',
+    ref='DESIGN.md §4 C07'),
+ 'C10': dict(
+    technique='grammar-directed generation of codes, code pairs and lists; totality + ordering-law + stable-sort-permutation oracle',
+    text='Codes from the syntax tree, pairs within families and lists with missing/None/duplicate disciplines; every function must return, '
+         'keys have the documented shape and class order, order by distance / conventional field order where unambiguous, text key '
+         'order-isomorphic to tuple key, sorter is a stable sort permutation, relay distance = legs x leg.',
+    note='Only unambiguous comparisons are asserted. event_code_to_kind is required to be total on its four families only.',
+    ref='DESIGN.md §4 C10'),
+ 'C12': dict(
+    technique='grammar-based generation of (event, text, gender, prec) + output-validity predicate and re-validation (idempotence) oracle; ddmin shrinking',
+    text='Events from the code grammar and common/loose names x plausible and implausible entry texts; the only exception allowed is the '
+         'caller\'s class; returned texts must be well-formed for the family, imply a plausible speed / length / points, and re-validate to '
+         'themselves. Four idempotence findings inherent to the format heuristics are listed in known_findings.json.',
+    note='Speed uses the library\'s get_distance (decided by C10). Open findings are matched by exact signature (clause + family + cause '
+         'computed from the result text); anything else is reported.',
+    ref='DESIGN.md §4 C12'),
+ 'C17': dict(
+    technique='complete enumeration of the finite core + Hypothesis-generated labels and codes; validity predicate and monotonicity oracle',
+    text='5 throws x genders x every label calc_uka_age_group produces (obtained by calling it) and the table labels, enumerated completely; '
+         'arbitrary labels and non-throw codes by Hypothesis; all keys of all scoring/grading tables. Built codes must be valid, normalised '
+         'throws codes carrying the table weight; masters weights non-increasing through V120.',
+    note='Exhaustive for the finite core; arbitrary labels are sampled.',
+    ref='DESIGN.md §4 C17'),
  'C09': dict(
     technique='exhaustive enumeration of the finite domain with a two-sided round-trip oracle',
     text='All 48 table rows x all integer targets -10..1500 (72 528 cases) are enumerated in both tiers; the needed mark must score '
